@@ -285,7 +285,7 @@ def main(argv=None):
           f"nontrivial={len(m['nontrivial'])} monitors={sum(m['monitors'].values())} "
           f"known={ {k: len(v) for k, v in by_key.items()} } unlisted={len(unknown)} "
           f"skipped={sum(m['skipped'].values())} wall={ev['wall_s']}s")
-    if not args.keep and rc == 0:
+    if not args.keep:
         shutil.rmtree(wdir, ignore_errors=True)
     return rc
 
